@@ -249,7 +249,7 @@ def job_text(kind, nsym=3, small_table=True):
                      required_events=ev, funcs=["litex.gen.fhdl.verilog.convert", "litex.gen.fhdl.namer.build_signal_namespace", "litex.gen.fhdl.namer.SignalNamespace.get_name",
                                                 "litex.gen.fhdl.verilog._generate_module/_generate_signals/_generate_specials", "litex.gen.fhdl.memory._memory_generate_verilog",
                                                 "litex.gen.fhdl.instance._instance_generate_verilog"],
-                     cfg=dict(design=kind, symbolic_names=nsym, reserved_table="4-word excerpt" if small_table else "full"), replay_dir=rdir(), timeout_ms=60000, max_paths=20000)
+                     cfg=dict(design=kind, symbolic_names=nsym, reserved_table="4-word excerpt" if small_table else "full"), replay_dir=rdir(), timeout_ms=300000, max_paths=20000)
 
 
 def jobs(tier):
